@@ -240,4 +240,19 @@ def evalInto {α : Type} (d : List (String × α)) (k : String) (r : Option α) 
   | some a => .ok (assoc d k a)
   | none => .error .notNumeric
 
+/-- a keyword argument of the StiffnessTester: a number read from the option store, the seed, or an object of the input passed through -/
+inductive Kw (α : Type) where
+  | num (a : α)
+  | seed (i : Int)
+  | ref
+
+/-- what one benchmark run of the stiffness tester does, in order -/
+inductive BenchEv where
+  | seedNumpy (s : Int)
+  | seedPython (s : Int)
+  | generateStimulus
+  | construct (stepper : String)
+  | integrate
+deriving DecidableEq, Repr
+
 end OdeVerif.Glue
